@@ -22,6 +22,7 @@ import (
 	"errors"
 	"fmt"
 	"io"
+	"log"
 	"net"
 	"net/http"
 	"os"
@@ -56,6 +57,7 @@ type c07In struct {
 	Chunked  bool        `json:"chunked"`
 	GraceMs  int         `json:"grace_ms"` // httpserver.GracefulTimeout for the lineage
 	MaxReq   int         `json:"max_req"`
+	Signal   bool        `json:"signal,omitempty"` // reload by SIGUSR1 to the own process instead of calling Restart
 	Reloads  []c07Reload `json:"reloads"`
 	retries  int
 }
@@ -373,6 +375,7 @@ type c07Obs struct {
 	Note     string   `json:"note,omitempty"`
 	StallMs  int64    `json:"longest_scheduler_stall_ms,omitempty"`
 	WaitEarly bool    `json:"wait_returned_early,omitempty"`
+	WaitStuck bool    `json:"wait_stuck_after_stop,omitempty"`
 }
 
 type c07Lineage struct {
@@ -538,8 +541,12 @@ func c07RunLineage(in *c07In) (res Result) {
 		ks = append(ks, k)
 	}
 	sort.Strings(ks)
-	res.Sig = "hist:" + in.Mode + ":" + strings.Join(ks, "+")
-	res.Class = in.Mode + ":" + strings.Join(ks, "+")
+	mode := in.Mode
+	if in.Signal {
+		mode += "-sigusr1"
+	}
+	res.Sig = "hist:" + mode + ":" + strings.Join(ks, "+")
+	res.Class = mode + ":" + strings.Join(ks, "+")
 
 	// foreign socket for listen-time failures
 	blocked, err := net.Listen("tcp", "127.0.0.9:0")
@@ -562,7 +569,24 @@ func c07RunLineage(in *c07In) (res Result) {
 	l := &c07Lineage{in: in, slotAddr: map[int]int{}, slotPort: map[int]int{}, slotIno: map[int]uint64{}, slotGen: map[int]int{}}
 
 	text0 := c07Config(in, 0, in.Slots0, "ok", 0, blockedPort)
-	inst, err := casket.Start(casket.CasketfileInput{Contents: []byte(text0), Filepath: "Casketfile", ServerTypeName: "http"})
+	var inst *casket.Instance
+	if in.Signal {
+		c07SignalSetup()
+		prevLog := log.Writer()
+		log.SetOutput(c07LogWriter{})
+		c07SigText.Store(text0)
+		defer func() {
+			c07SigText.Store("")
+			log.SetOutput(prevLog)
+		}()
+		var input casket.Input
+		input, err = casket.LoadCasketfile("http")
+		if err == nil {
+			inst, err = casket.Start(input)
+		}
+	} else {
+		inst, err = casket.Start(casket.CasketfileInput{Contents: []byte(text0), Filepath: "Casketfile", ServerTypeName: "http"})
+	}
 	if err != nil {
 		res.Term = "(CHist [] [] [])"
 		res.Direct = "first Start failed: " + err.Error()
@@ -759,10 +783,24 @@ func c07RunLineage(in *c07In) (res Result) {
 				time.Sleep(150 * time.Microsecond)
 			}
 		}()
-		newInst, rerr := inst.Restart(casket.CasketfileInput{Contents: []byte(text), Filepath: "Casketfile", ServerTypeName: "http"})
+		var newInst *casket.Instance
+		var rerr error
+		var tret int64
+		if in.Signal {
+			// the SIGUSR1 path of sigtrap_posix.go: the handler loads the configuration through
+			// the registered loader and calls Restart on the first instance
+			rerr = c07SignalReload(text)
+			tret = l.now()
+			if rerr == nil {
+				insts := casket.Instances()
+				newInst = insts[len(insts)-1]
+			}
+		} else {
+			newInst, rerr = inst.Restart(casket.CasketfileInput{Contents: []byte(text), Filepath: "Casketfile", ServerTypeName: "http"})
+			tret = l.now()
+		}
 		close(sampStop)
 		<-sampDone
-		tret := l.now()
 		r := 0
 		if rerr != nil {
 			r = 1
@@ -810,10 +848,13 @@ func c07RunLineage(in *c07In) (res Result) {
 	default:
 	}
 	inst.Stop()
-	select {
-	case <-waitDone:
-	case <-time.After(8 * time.Second):
-		obs.Note += "Wait() did not return within 8s after the final Stop; "
+	if c07WaitStuck < 3 {
+		select {
+		case <-waitDone:
+		case <-time.After(5 * time.Second):
+			c07WaitStuck++
+			obs.WaitStuck = true
+		}
 	}
 
 	dbg("stop+wait")
@@ -881,6 +922,9 @@ func c07RunLineage(in *c07In) (res Result) {
 		h = append(h, fmt.Sprintf("%s%v/%d", rl.Kind, rl.Slots, rl.Var))
 	}
 	res.Key = strings.Join(h, "|") + fmt.Sprint(in.Seed)
+	if obs.WaitStuck {
+		res.Direct = "Instance.Wait() did not return within 5 s after the final Stop of the lineage (servers still running or wait group never released)"
+	}
 	if obs.WaitEarly {
 		res.Direct = "Instance.Wait() returned while the lineage was still serving (wait-group released early)"
 		if p := waitPanic.Load(); p != nil {
@@ -896,6 +940,9 @@ func c07Short(s string) string {
 	}
 	return s
 }
+
+// lineages whose Wait() did not return after the final Stop (waited for at most 3 times per run)
+var c07WaitStuck int
 
 // lineages of this run that were cut short by client timeouts; after 5 of them the remaining
 // cases are skipped (the violations are on record, each further one would cost seconds)
@@ -1029,9 +1076,9 @@ func c07GenOne(r *Rand, mode string, nrel int) *c07In {
 
 func c07Gen(r *Rand, tier string) []interface{} {
 	var out []interface{}
-	nload, nsync := 70, 50
+	nload, nsync, nsig := 60, 40, 20
 	if tier == "thorough" {
-		nload, nsync = 700, 500
+		nload, nsync, nsig = 600, 400, 200
 	}
 	for i := 0; i < nload; i++ {
 		nrel := 3 + r.Intn(18)
@@ -1042,6 +1089,12 @@ func c07Gen(r *Rand, tier string) []interface{} {
 	}
 	for i := 0; i < nsync; i++ {
 		out = append(out, c07GenOne(r, "sync", 2+r.Intn(10)))
+	}
+	// the same through the SIGUSR1 handler
+	for i := 0; i < nsig; i++ {
+		in := c07GenOne(r, []string{"load", "sync"}[i%2], 2+r.Intn(8))
+		in.Signal = true
+		out = append(out, in)
 	}
 	return out
 }
@@ -1112,5 +1165,70 @@ func init() {
 		ino, ok := c07DiagListenInode(1, port)
 		fmt.Println("netlink:", ino, ok, time.Since(t), "fds:", c07FdInodes()[ino])
 		return 0
+	}
+}
+
+// ---------------------------------------------------------------------------------------------
+// reload by signal (sigtrap_posix.go)
+
+var (
+	c07SigOnce sync.Once
+	c07SigText atomic.Value // string: the configuration the loader hands out ("" = loader inactive)
+	c07SigCh   = make(chan string, 16)
+)
+
+func c07SignalSetup() {
+	c07SigOnce.Do(func() {
+		c07SigText.Store("")
+		casket.RegisterCasketfileLoader("c07", casket.LoaderFunc(func(serverType string) (casket.Input, error) {
+			t, _ := c07SigText.Load().(string)
+			if t == "" {
+				return nil, nil
+			}
+			return casket.CasketfileInput{Contents: []byte(t), Filepath: "Casketfile", ServerTypeName: "http"}, nil
+		}))
+		casket.TrapSignals()
+	})
+}
+
+// c07LogWriter watches the process log for the outcome of a signal-driven reload: Restart logs
+// "Reloading complete" after the old instance was stopped, the SIGUSR1 handler logs the error
+// after Restart returned it.
+type c07LogWriter struct{}
+
+func (c07LogWriter) Write(p []byte) (int, error) {
+	for _, line := range strings.Split(string(p), "\n") {
+		switch {
+		case strings.Contains(line, "[INFO] Reloading complete"):
+			select {
+			case c07SigCh <- "":
+			default:
+			}
+		case strings.Contains(line, "[ERROR] SIGUSR1: "):
+			select {
+			case c07SigCh <- line[strings.Index(line, "[ERROR] SIGUSR1: ")+17:]:
+			default:
+			}
+		}
+	}
+	return len(p), nil
+}
+
+func c07SignalReload(text string) error {
+	for len(c07SigCh) > 0 {
+		<-c07SigCh
+	}
+	c07SigText.Store(text)
+	if err := syscall.Kill(os.Getpid(), syscall.SIGUSR1); err != nil {
+		return fmt.Errorf("harness: kill: %v", err)
+	}
+	select {
+	case m := <-c07SigCh:
+		if m == "" {
+			return nil
+		}
+		return errors.New(m)
+	case <-time.After(40 * time.Second):
+		return errors.New("harness: no outcome of the SIGUSR1 reload within 40 s")
 	}
 }
